@@ -368,11 +368,11 @@ impl<'a, F: Float, K: 'a + Permutable<F>> SolverState<'a, F, K> {
             let dist_j = self.kernel.distances(j, self.ntotal());
             let bound_j = self.bound(j);
             if uj {
-                for k in 0..self.nactive() {
+                for k in 0..self.ntotal() {
                     self.gradient_fixed[k] -= bound_j * dist_j[k];
                 }
             } else {
-                for k in 0..self.nactive() {
+                for k in 0..self.ntotal() {
                     self.gradient_fixed[k] += bound_j * dist_j[k];
                 }
             }
